@@ -23,7 +23,8 @@ TEMPLATE = os.path.join(COQ, "corr", "GenTie.v.in")
 if not os.path.exists(TEMPLATE):          # a scratch copy of the development that predates the template
     TEMPLATE = os.path.join(os.path.dirname(os.path.dirname(os.path.abspath(__file__))), "coq", "corr", "GenTie.v.in")
 THEOREMS = {"gen_health_check_locked": "gen_health_check_is_probe_next", "gen_next_target": "gen_next_target_is_next_idx",
-            "gen_handle_proxy_error": "gen_handle_proxy_error_is_classify"}
+            "gen_handle_proxy_error": "gen_handle_proxy_error_is_classify", "gen_service_ladder": "gen_service_ladder_is_serve"}
+NEEDS = {"gen_service_ladder": ["gen_should_redirect"]}      # functions a theorem mentions beside its own
 
 GRID = {
     "gen_health_check_locked":
@@ -34,6 +35,10 @@ GRID = {
         "filter (fun x => let '(mb, to, ca, dr) := x in negb (let '(a, b) := gen_handle_proxy_error mb to ca dr in "
         "Nat.eqb a (N.to_nat (ProxyError.classify_info (ProxyError.mkErr mb to ca dr))) && Bool.eqb b (Nat.eqb a 499))) "
         "(flat_map (fun mb => flat_map (fun to => flat_map (fun ca => map (fun dr => (mb, to, ca, dr)) [true; false]) [true; false]) [true; false]) [true; false])",
+    "gen_service_ladder":
+        "filter (fun x => let '(tls, redir, q, g) := x in negb (Nat.eqb (gen_service_ladder (gen_should_redirect tls redir q) tls redir q g) "
+        "(if tls && redir && negb q then 1 else if negb tls && q then 503 else if g then 0 else 4))) "
+        "(flat_map (fun a => flat_map (fun b => flat_map (fun c => map (fun d => (a, b, c, d)) [true; false]) [true; false]) [true; false]) [true; false])",
     "gen_next_target":
         "filter (fun x => let '(i, k) := x in negb (let '(a, b) := gen_next_target i k in "
         "if Nat.eqb k 0 then Nat.eqb a i && match b with None => true | _ => false end "
@@ -75,7 +80,7 @@ def gen_tie(work, res, only=("gen_health_check_locked", "gen_next_target")):
         cov["status"] = "generated definitions do not compile"
         return False, "GenFacts.v (generated by harness/gofacts) does not compile:\n" + out[-2000:]
     tpl = open(TEMPLATE).read()
-    head, *sections = re.split(r"(?=\(\*\* the locked region|\(\*\* nextTarget|\(\*\* handleProxyError)", tpl)
+    head, *sections = re.split(r"(?=\(\*\* the locked region|\(\*\* nextTarget|\(\*\* handleProxyError|\(\*\* the service ladder)", tpl)
     by_name = {}
     for sec in sections:
         for fn, th in THEOREMS.items():
@@ -86,6 +91,9 @@ def gen_tie(work, res, only=("gen_health_check_locked", "gen_next_target")):
         fn = r["name"]
         if fn not in only:
             continue
+        missing = [n for n in NEEDS.get(fn, []) if not any(x["name"] == n and x["ok"] for x in report)]
+        if r["ok"] and missing:
+            r = dict(r, ok=False, unsupported="needs %s, which is not translated" % ", ".join(missing))
         if not r["ok"]:
             cov["functions"][fn] = {"source": r["source"], "translated": False, "reason": r.get("unsupported"),
                                     "tie": "correspondence run only (not an alarm)"}
@@ -100,7 +108,7 @@ def gen_tie(work, res, only=("gen_health_check_locked", "gen_next_target")):
         if not entry["proved"]:
             all_ok = False
             with open(os.path.join(d, "Grid_%s.v" % fn), "w") as f:
-                f.write("From Coq Require Import List Bool Arith NArith.\nImport ListNotations.\nFrom KP Require Import model.Base model.Trace model.M5lb.\nFrom KP Require model.ProxyError.\n"
+                f.write("From Coq Require Import List Bool Arith NArith.\nImport ListNotations.\nFrom KP Require Import model.Base model.Trace model.M5lb.\nFrom KP Require model.ProxyError model.ServiceMap model.Seq.\n"
                         "Require Import GenFacts.\nDefinition R := Eval vm_compute in %s.\nPrint R.\n" % GRID[fn])
             g_ok, g_out = _coqc(d, "Grid_%s.v" % fn)
             entry["inputs_on_which_source_and_model_differ"] = g_out.strip()[-600:] if g_ok else "grid evaluation failed: " + g_out[-300:]
